@@ -96,8 +96,8 @@ type c16Case struct {
 
 func c16DrawMsg(rt *rapid.T) c16Msg {
 	m := c16Msg{}
-	m.Kind = rapid.SampledFrom([]string{"send", "send", "send", "send", "take", "take", "take", "grow", "grow", "grow", "run", "run", "nope", "addpkg", "create", "revoke", "revokeall"}).Draw(rt, "mkind")
-	m.Amt = rapid.SampledFrom([]int64{100_000, 1, 50_000, 400_000, 2_000_000}).Draw(rt, "amt")
+	m.Kind = rapid.SampledFrom([]string{"send", "take", "grow", "run", "send", "take", "grow", "nope", "send", "take", "grow", "run", "addpkg", "send", "take", "create", "grow", "send", "revoke", "take", "nope", "revokeall", "send"}).Draw(rt, "mkind")
+	m.Amt = rapid.SampledFrom([]int64{50_000, 1, 10_000, 200_000, 1_500_000}).Draw(rt, "amt")
 	m.Realm = rapid.IntRange(0, 2).Draw(rt, "realm")
 	m.N = rapid.IntRange(1, 30).Draw(rt, "n")
 	m.Tok = rapid.IntRange(0, 6).Draw(rt, "tok") == 4
@@ -107,12 +107,12 @@ func c16DrawMsg(rt *rapid.T) c16Msg {
 
 func c16DrawOp(rt *rapid.T, first bool, live *[][2]int) c16Op {
 	o := c16Op{}
-	kinds := []string{"create", "create", "stx", "stx", "stx", "stx", "stx", "stx", "stx", "stx", "stx", "stx", "stx", "stx", "stx", "stx", "mtx", "revoke", "revokeall"}
+	kinds := []string{"stx", "stx", "stx", "stx", "stx", "stx", "stx", "create", "stx", "stx", "stx", "stx", "mtx", "stx", "revoke", "stx", "stx", "revokeall", "stx", "stx"}
 	if first || len(*live) == 0 {
 		kinds = []string{"create"}
 	}
 	o.Kind = rapid.SampledFrom(kinds).Draw(rt, "kind")
-	o.DT = rapid.SampledFrom([]int64{1, 1, 1, 5, 20, 60, 300, 2000}).Draw(rt, "dt")
+	o.DT = rapid.SampledFrom([]int64{1, 1, 1, 1, 5, 5, 20, 60, 300, 2000}).Draw(rt, "dt")
 	o.Master = rapid.IntRange(0, 1).Draw(rt, "master")
 	o.Sess = rapid.IntRange(0, 2).Draw(rt, "sess")
 	// aim most session traffic and revocations at sessions that were created earlier in the history
@@ -185,7 +185,7 @@ func c16DrawOp(rt *rapid.T, first bool, live *[][2]int) c16Op {
 }
 
 func c16Draw(rt *rapid.T) c16Case {
-	n := rapid.IntRange(10, 26).Draw(rt, "nops")
+	n := rapid.IntRange(14, 30).Draw(rt, "nops")
 	c := c16Case{}
 	var live [][2]int
 	for i := 0; i < n; i++ {
@@ -663,7 +663,7 @@ func c16LedgerDiff(a, b *ec.Ledger) string {
 func TestC16_Sessions(t *testing.T) {
 	vk.Run(t, vk.Spec[c16Case]{
 		ID: "C16", Name: "TestC16_Sessions",
-		Rule: "rapid: histories of 10-26 ops (one tx per block, clock steps 1-2000 s) over 2 masters x 3 session keys: create (limit ugnot 0/0.3M/1M/3M/10M and optional realm-denom limit, period 0/50/400 s, expiry never/100/1000/100000 s, 1-3 allow-path entries from a pool of 9 well-formed and 9 malformed ones), revoke, revoke-all, master-signed traffic, and session-signed txs with 1-3 messages (bank send in ugnot or a realm denom, calls with coins attached to realms aa, aab, aa/bb, calls locking storage deposits with or without a too-small limit, MsgRun scripts spending the master's coins through a banker, a call to a missing function, add_package, create/revoke/revoke-all session) with fees 1/50k/200k, sometimes as second signer next to the other master's own key. Oracle: window model fed with the measured balance decrease of the master; session must exist, be unexpired and its allow-paths (independent matcher) must cover every message; rejected txs move no coins; non-trivial = one session has >=3 accepted txs in one window with a failing one in the middle",
+		Rule: "rapid: histories of 14-30 ops (one tx per block, clock steps 1-2000 s) over 2 masters x 3 session keys: create (limit ugnot 0/0.3M/1M/3M/10M and optional realm-denom limit, period 0/50/400 s, expiry never/100/1000/100000 s, 1-3 allow-path entries from a pool of 9 well-formed and 9 malformed ones), revoke, revoke-all, master-signed traffic, and session-signed txs with 1-3 messages (bank send in ugnot or a realm denom, calls with coins attached to realms aa, aab, aa/bb, calls locking storage deposits with or without a too-small limit, MsgRun scripts spending the master's coins through a banker, a call to a missing function, add_package, create/revoke/revoke-all session) with fees 1/50k/200k, sometimes as second signer next to the other master's own key. Oracle: window model fed with the measured balance decrease of the master; session must exist, be unexpired and its allow-paths (independent matcher) must cover every message; rejected txs move no coins; non-trivial = one session has >=3 accepted txs in one window with a failing one in the middle",
 		Draw: c16Draw, Exec: c16Exec,
 	})
 }
